@@ -16,7 +16,7 @@ PID = "C02"
 META = {
     "level": "fault_enumeration",
     "technique": "exhaustive single-fault (and bounded double-fault) enumeration over recorded ciphertext streams, "
-                 "replayed into a freshly keyed real receiver Transport",
+                 "replayed into a freshly keyed real receiver Transport, each followed by silence or end-of-file",
     "text": "Per suite a 3-message stream (5, 40, 17 bytes) recorded after NEWKEYS: every byte position x {xor 0x01, "
             "xor 0x80, xor 0xff, delete, insert 0x00, truncate}; every swap of two packets, every drop, every "
             "duplication/replay position; every edit is run twice - new dimension 'stream end': after the edited bytes recv() "
